@@ -44,26 +44,29 @@
 //     g[dim1 + i] = (g1/|r|) * s[dim1 + i] - the TAIL OF s, no field of the cone - and g[i] = -(1 + a_i + a_i*g1*|r|)/s[i]; otherwise tail 0 and
 //     g[i] = -(1 + a_i)/s[i]; g1 = gp_g1_spec(|r|, p, phi, alpha, psi) (stand-in for `_newton_raphson_genpowcone`); the fold computing phi is
 //     dropped (phi is a parameter of the slice),
-//     barrier_primal (-f*(-g(s)) - (dim1 + 1), g = the gradient above with phi = gp_phi_spec; work_pb is scratch)};
+//     barrier_primal (-f*(-g(s)) - (dim1 + 1), g = the gradient above with phi = gp_phi_spec; work_pb is scratch),
+//     is_primal_feasible / is_dual_feasible (C14; from the cone definitions K = {prod u_i^a_i >= |w|}, K* = {prod (u_i/a_i)^a_i >= |w|}: true <=>
+//     every u_i > 0 and exp(sum_i 2 a_i log u_i) - sumsq(w) > 0, resp. log(u_i/a_i); the sum as the left fold performed; rule R24 extended to
+//     closures `-> T { .. }`), barrier_dual (-log(res) - sum (1 - a_i) log u_i, res as in the dual test), update_dual_grad_H (every entry written to
+//     grad, p, q (tau * q0/zeta), r, d1, d2 as the documented expressions - gp_dual_data; z, mu, psi, work vectors untouched; the
+//     `assert!(zeta > 0)` is kept as an assertion = PRECONDITION, also of update_scaling), step_length now over the REAL tests};
+//   backtrack_search (second proof of the real body; as in unit `steplen` except that the membership closure need only accept vectors of the
+//     length of q - the gen-power tests slice `s[..dim1]`).
 //     margins / scaled_unit_shift / set_identity_scaling: `ensures false` as above.
 //   Lemmas (F-real): lemma_Hs_block_is_operator (C11: the block get_Hs writes, read as a symmetric matrix, times x is what mul_Hs returns),
 //     lemma_pow_central_real (1 + (1 - a) = 2 - a), lemma_exp_primal_accept_no_panic (see OPEN ITEM 1).
 // ASSUMED:
 //   * `unreachable_panic()` does not return (what a panic is); prelude/float_opaque.rs, prelude/vecmath_assumed.rs (copy_from, set, scale, axpby, waxpby, scalarop_from, dot, sum, sumsq: proved in unit
-//     `vecmath`), VectorMath::normalize (local extension trait; proved in unit `vecmath_more`), backtrack_search (proved in unit `steplen`, same
-//     contract text), `core::mem::take` returns the old value;
+//     `vecmath`), VectorMath::normalize (local extension trait; proved in unit `vecmath_more`), `core::mem::take` returns the old value;
 //   * stand-ins with uninterpreted results, each a function of exactly what the body reads: higher_correction of exp / pow (value; "cone not
 //     modified" and panic-freedom are PROVED on the real body, see higher_correction_body), PowerCone::gradient_primal (Newton iteration
 //     `_newton_raphson_powcone`, two closures), `_wright_omega` (value f_wright_omega(z); precondition = its documented panic `z < 0`),
 //     `_newton_raphson_genpowcone` (value gp_g1_spec of its arguments), the phi fold of GenPowerCone::gradient_primal (gp_phi_spec; the whole
-//     function is ASSUMED to be its verified tail slice run with that phi), GenPowerCone::{update_dual_grad_H (writes grad, p, q, r, d1, d2
-//     only), barrier_dual, is_primal_feasible, is_dual_feasible};
+//     function is ASSUMED to be its verified tail slice run with that phi);
 //   * F-real: prelude/float_real_axioms.rs, and the local ADMITTED block `ln_ax` (log is a function of the real value; log(1/x) = -log x for
 //     x > 0) used ONLY by lemma_exp_primal_accept_no_panic.  canary_real_axioms and canary_ln must FAIL.
 // DROPPED (not under contract): `_wright_omega` body (raw f64 constant arithmetic `1. / 16.0`: vstd's f64 division has preconditions),
-//   `_newton_raphson_powcone`, `_newton_raphson_genpowcone`, PowerCone::gradient_primal, GenPowerCone::{update_dual_grad_H,
-//   barrier_dual, the phi fold of gradient_primal, is_primal_feasible, is_dual_feasible (fold closure with an explicit `-> T` return type: rule
-//   R24 does not take it; a two-line additive change of R24 would open all four folds),
+//   `_newton_raphson_powcone`, `_newton_raphson_genpowcone`, PowerCone::gradient_primal, GenPowerCone::{the phi fold of gradient_primal,
 //   higher_correction (`unimplemented!()`, never called: combined_ds_shift has no correction)}; the arithmetic content of the Cholesky pair.
 // OPEN ITEMS:
 //   1. (C04) `_wright_omega` panics for a negative argument.  ExponentialCone::{compute_barrier, update_scaling / update_Hs /
@@ -72,10 +75,13 @@
 //      point is_primal_feasible accepts satisfies it (the argument is > 1).  That the solver only evaluates these functions at accepted points
 //      (backtrack_step_to_barrier shrinks an accepted step; update_scaling runs at the iterate) is by inspection, not proved; the composite
 //      contracts of unit `composite` do not carry the precondition.
-//   2. (C04) GenPowerCone::update_dual_grad_H contains `assert!(zeta > 0)` (panics if the iterate is not strictly dual feasible): body dropped.
-//   3. additions to tools/extract.py (additive): rule `tupassignx` ((z[0], z[1], z[2]) = (s[0], s[1], s[2]) -> three assignments), rule
+//   2. (C04) GenPowerCone::update_dual_grad_H asserts zeta = prod (u_i/a_i)^(2 a_i) - |w|^2 > 0 (powf product).  It is a precondition here (and of
+//      update_scaling).  Call sites: update_scaling runs at the iterate, which the line search accepted with is_dual_feasible, i.e.
+//      exp(sum 2 a_i log(u_i/a_i)) - |w|^2 > 0 - the same number in exact arithmetic, a DIFFERENT float expression (exp of a log-sum vs a
+//      product of powf): not derivable in the float symbols, not proved; the composite stand-ins of unit `composite` do not carry it.
+//   3. additions to tools/extract.py (additive): R24 accepts fold closures `|acc, pat| -> T { EXPR }`; rule `tupassignx` ((z[0], z[1], z[2]) = (s[0], s[1], s[2]) -> three assignments), rule
 //      `unreach` (`unreachable!();` -> `return unreachable_panic();`, a local fn with `ensures false`), directive `//@after_loop k`.
-// MUTATION ROUND (scratch copy of /repo, one wrong edit at a time, whole unit re-verified): 74 valid wrong edits, 74 rejected by a named
+// MUTATION ROUND (scratch copy of /repo, one wrong edit at a time, whole unit re-verified): 98 valid wrong edits, 98 rejected by a named
 //   obligation, 0 survivors (one further edit did not compile).  E.g. PowerCone::unit_initialization `s[2] = 0` written to `z[2]`; central-point
 //   digits swapped / one digit changed; z copied from the wrong component; DenseMatrixSym3::mul wrong row, packing order of index_linear,
 //   norm_fro off-diagonals once, quad_form entry, scaled_from index; get_Hs / mul_Hs from H_dual; affine_ds / offset copying z; compute_barrier
@@ -85,9 +91,12 @@
 //   swapped; gradient / Hessian / barrier signs; 16 edits in genpowcone.rs; logsafe `<`; Newton counter dropped; higher_correction index / frame;
 //   `unreachable!()` replaced by a returning body (margins, set_identity_scaling); GenPowerCone::gradient_primal: `&data.r` re-introduced (F9),
 //   `norm_r` -> `phi` in the quotient, wrong else branch, `* norm_r` dropped, tail not zeroed, comparison flipped; barrier_primal: negate dropped,
-//   sign of the degree term, wrong argument.
-// COST: 160 obligations, about 20 s; heaviest: use_primal_dual_scaling 6.9 M (exp) / 6.4 M (pow) of the 150 M of `--rlimit 50` (4.6 %),
-//   GenPowerCone::mul_Hs 1.6 M, everything else below 1 M.  Stable under Z3 seeds 1-6 (tools/stability_probe.py).
+//   sign of the degree term, wrong argument; gen-power membership tests: `>=` in the positivity test, head <-> tail, `two * a_i` -> `a_i`, primal /
+//   dual bodies swapped, sumsq -> norm, sumsq of the head, `res >= 0`, fall-through `true`; barrier_dual: 3 edits; update_dual_grad_H: 11 edits (phi
+//   exponent, zeta sign, assert bound, grad sign / source, d1, d2, p0 <-> p1, q not scaled, r source, r1); backtrack_search trial point.  (Dropping
+//   `alpha *= step` in backtrack_search ends as a LOST ANCHOR, exit 2 = undecided, in this unit as in `steplen`.)
+// COST: 179 obligations, about 20 s; heaviest: use_primal_dual_scaling 7.3 M (exp) / 7.1 M (pow) of the 150 M of `--rlimit 50` (4.9 %),
+//   GenPowerCone::update_dual_grad_H 3.0 M, mul_Hs 1.6 M, gradient_primal_tail 1.5 M, barrier_dual 1.3 M, everything else below 1 M.  Stable under Z3 seeds 1-6 (tools/stability_probe.py).
 use vstd::prelude::*;
 verus! {
 global size_of usize == 8;
@@ -861,6 +870,43 @@ pub open spec fn gp_same_but_scratch(c1: GenPowerCone<F>, c0: GenPowerCone<F>) -
     &&& c1.data.d2 == c0.data.d2 && c1.data.psi == c0.data.psi
     &&& c1.data.work_pb@.len() == c0.data.work_pb@.len()
 }
+// ---- what update_dual_grad_H stores (genpowcone.rs), u = z[..dim1], w = z[dim1..], as the float expressions evaluated:
+//   phi = prod_i (u_i/alpha_i)^(2 alpha_i) (left fold from 1),  zeta = phi - |w|^2,  tau_i = 2 alpha_i / u_i  (kept in q as a workspace),
+//   grad = ( -tau_i*phi/zeta - (1 - alpha_i)/u_i ;  (2/zeta) * w ),
+//   Hs = mu*(D + pp' - qq' - rr'):  d1_i = tau_i*phi/(zeta*u_i) + (1 - alpha_i)/u_i^2,  d2 = 2/zeta,
+//   p = ( (p0/zeta) tau ; (p1/zeta) w ),  q = tau * (q0/zeta),  r = (r1/zeta) w,
+//   p0 = sqrt(phi (phi + |w|^2)/2),  p1 = -2 phi/p0,  q0 = sqrt(zeta phi/2),  r1 = 2 sqrt(zeta/(phi + |w|^2))
+pub open spec fn gp_phi(al: Seq<F>, z: Seq<F>, k: int) -> F decreases k {
+    if k <= 0 { f_one() } else { f_mul(gp_phi(al, z, k - 1), f_powf(f_div(z[k - 1], al[k - 1]), f_mul(lit2(), al[k - 1]))) }
+}
+pub open spec fn gp_n2w(al: Seq<F>, z: Seq<F>) -> F { vm_sumsq(gp_tail(z, al.len() as int)) }
+pub open spec fn gp_zeta(al: Seq<F>, z: Seq<F>) -> F { f_sub(gp_phi(al, z, al.len() as int), gp_n2w(al, z)) }
+pub open spec fn gp_tau(al: Seq<F>, z: Seq<F>, i: int) -> F { f_div(f_mul(lit2(), al[i]), z[i]) }
+pub open spec fn gp_grad_entry(al: Seq<F>, z: Seq<F>, i: int) -> F {
+    let phi = gp_phi(al, z, al.len() as int); let zeta = gp_zeta(al, z);
+    if i < al.len() { f_sub(f_div(f_mul(f_neg(gp_tau(al, z, i)), phi), zeta), f_div(f_sub(f_one(), al[i]), z[i])) }
+    else { f_mul(f_div(lit2(), zeta), z[i]) }
+}
+pub open spec fn gp_d1_entry(al: Seq<F>, z: Seq<F>, i: int) -> F {
+    let phi = gp_phi(al, z, al.len() as int); let zeta = gp_zeta(al, z);
+    f_add(f_div(f_mul(gp_tau(al, z, i), phi), f_mul(zeta, z[i])), f_div(f_sub(f_one(), al[i]), f_mul(z[i], z[i])))
+}
+pub open spec fn gp_p0(al: Seq<F>, z: Seq<F>) -> F { let phi = gp_phi(al, z, al.len() as int); f_sqrt(f_div(f_mul(phi, f_add(phi, gp_n2w(al, z))), lit2())) }
+pub open spec fn gp_p1(al: Seq<F>, z: Seq<F>) -> F { f_div(f_mul(f_neg(lit2()), gp_phi(al, z, al.len() as int)), gp_p0(al, z)) }
+pub open spec fn gp_q0(al: Seq<F>, z: Seq<F>) -> F { f_sqrt(f_div(f_mul(gp_zeta(al, z), gp_phi(al, z, al.len() as int)), lit2())) }
+pub open spec fn gp_r1(al: Seq<F>, z: Seq<F>) -> F { f_mul(lit2(), f_sqrt(f_div(gp_zeta(al, z), f_add(gp_phi(al, z, al.len() as int), gp_n2w(al, z))))) }
+pub open spec fn gp_p_entry(al: Seq<F>, z: Seq<F>, i: int) -> F {
+    if i < al.len() { f_mul(f_div(gp_p0(al, z), gp_zeta(al, z)), gp_tau(al, z, i)) } else { f_mul(f_div(gp_p1(al, z), gp_zeta(al, z)), z[i]) }
+}
+pub open spec fn gp_dual_data(d: GenPowerConeData<F>, al: Seq<F>, z: Seq<F>) -> bool {
+    let dim1 = al.len() as int;
+    &&& forall|i: int| 0 <= i < z.len() ==> #[trigger] d.grad@[i] == gp_grad_entry(al, z, i)
+    &&& forall|i: int| 0 <= i < z.len() ==> #[trigger] d.p@[i] == gp_p_entry(al, z, i)
+    &&& forall|i: int| 0 <= i < dim1 ==> #[trigger] d.q@[i] == f_mul(gp_tau(al, z, i), f_div(gp_q0(al, z), gp_zeta(al, z)))
+    &&& forall|i: int| 0 <= i < z.len() - dim1 ==> #[trigger] d.r@[i] == f_mul(f_div(gp_r1(al, z), gp_zeta(al, z)), z[dim1 + i])
+    &&& forall|i: int| 0 <= i < dim1 ==> #[trigger] d.d1@[i] == gp_d1_entry(al, z, i)
+    &&& d.d2 == f_div(lit2(), gp_zeta(al, z))
+}
 impl GenPowerCone<F> {
 //@fn file=src/solver/core/cones/genpowcone.rs in="impl<T> GenPowerCone<T>" name=new rules=R1,R2 ret=r
 //@contract
@@ -930,10 +976,49 @@ impl GenPowerCone<F> {
     // uses work_pb as scratch space.
 //@fn file=src/solver/core/cones/genpowcone.rs in="NonsymmetricCone<T> for GenPowerCone<T>" name=update_dual_grad_H rules=R1,R2,R24,R15:grad|data.p,zipidx:1=ii;2=mmii;3=miii
 //@contract
-        requires gp_wf(*old(self)), z@.len() == gp_dim(*old(self)),
-        ensures gp_wf(*final(self)), final(self).alpha@ == old(self).alpha@, final(self).dim2 == old(self).dim2,
-            final(self).data.z@ == old(self).data.z@, final(self).data.mu == old(self).data.mu, final(self).data.psi == old(self).data.psi,
-            final(self).data.work@ == old(self).data.work@, final(self).data.work_pb@ == old(self).data.work_pb@,
+    requires gp_wf(*old(self)), z@.len() == gp_dim(*old(self)),
+        // `assert!(zeta > 0)`: kept as an assertion, i.e. a PRECONDITION (see the header, OPEN ITEM 2)
+        f_lt(f_zero(), gp_zeta(old(self).alpha@, z@)),
+    ensures gp_wf(*final(self)), final(self).alpha@ == old(self).alpha@, final(self).dim2 == old(self).dim2,
+        final(self).data.z@ == old(self).data.z@, final(self).data.mu == old(self).data.mu, final(self).data.psi == old(self).data.psi,
+        final(self).data.work@ == old(self).data.work@, final(self).data.work_pb@ == old(self).data.work_pb@,
+        gp_dual_data(*final(self).data, old(self).alpha@, z@),
+//@pre
+        let ghost al = self.alpha@;
+        let ghost zS = self.data.z@; let ghost muS = self.data.mu; let ghost psiS = self.data.psi;
+        let ghost workS = self.data.work@; let ghost wpbS = self.data.work_pb@;
+        let ghost n = z@.len() as int;
+//@loop 1
+            invariant r14_n1 == dim1, dim1 == al.len(), alpha@ == al, z@.len() == n, dim1 <= n, two == lit2(),
+                phi == gp_phi(al, z@, r14_i1 as int),
+//@loop 2
+            invariant r14_n2 == dim1, r14_lo2_1 == 0, r14_lo2_3 == 0, dim1 == al.len(), alpha@ == al, z@.len() == n, dim1 <= n, two == lit2(),
+                tau@.len() == dim1, grad@.len() == n,
+                phi == gp_phi(al, z@, dim1 as int), zeta == gp_zeta(al, z@),
+                forall|k: int| 0 <= k < r14_i2 ==> #[trigger] tau@[k] == gp_tau(al, z@, k),
+                forall|k: int| 0 <= k < r14_i2 ==> #[trigger] grad@[k] == gp_grad_entry(al, z@, k),
+//@before_loop 3
+        let ghost gradS = data.grad@;
+//@loop 3
+            invariant r14_n3 == dim1, r14_lo3_3 == 0, dim1 == al.len(), alpha@ == al, z@.len() == n, dim1 <= n,
+                tau@.len() == dim1, data.d1@.len() == dim1,
+                phi == gp_phi(al, z@, dim1 as int), zeta == gp_zeta(al, z@),
+                forall|k: int| 0 <= k < dim1 ==> #[trigger] tau@[k] == gp_tau(al, z@, k),
+                forall|k: int| 0 <= k < r14_i3 ==> #[trigger] data.d1@[k] == gp_d1_entry(al, z@, k),
+                data.grad@ == gradS, data.z@ == zS, data.mu == muS, data.psi == psiS, data.work@ == workS, data.work_pb@ == wpbS,
+                data.p@.len() == n, data.r@.len() == n - dim1,
+//@closure 1
+F
+(q: F) ensures q == f_mul(f_div(two, zeta), z)
+//@closure 2
+F
+(q: F) ensures q == f_mul(f_div(p0, zeta), taui)
+//@closure 3
+F
+(q: F) ensures q == f_mul(f_div(p1, zeta), zi)
+//@closure 4
+F
+(q: F) ensures q == f_mul(f_div(r1, zeta), zi)
 //@end
     // the whole gradient_primal: ASSUMED to be its verified tail slice (gradient_primal_tail below) run with phi = gp_phi_spec
     #[verifier::external_body] pub fn gradient_primal(&self, g: &mut [F], s: &[F])
@@ -976,9 +1061,12 @@ F
 //@fn file=src/solver/core/cones/genpowcone.rs in="Cone<T> for GenPowerCone<T>" name=update_scaling rules=R1,R2 ret=r params=s,z,mu,strategy
 //@contract
     requires gp_wf(*old(self)), z@.len() == gp_dim(*old(self)),
+        f_lt(f_zero(), gp_zeta(old(self).alpha@, z@)),      // the assert! inside update_dual_grad_H (OPEN ITEM 2)
     ensures r, gp_wf(*final(self)), final(self).alpha@ == old(self).alpha@, final(self).dim2 == old(self).dim2,
         // "self.data.mu = mu", "K.z .= z": the central-path parameter and the scaling point are remembered
         final(self).data.mu == mu, final(self).data.z@ == z@,
+        // "update both gradient and Hessian for function f*(z) at the point z"
+        gp_dual_data(*final(self).data, old(self).alpha@, z@),
         final(self).data.psi == old(self).data.psi, final(self).data.work@ == old(self).data.work@, final(self).data.work_pb@ == old(self).data.work_pb@,
 //@end
 //@fn file=src/solver/core/cones/genpowcone.rs in="Cone<T> for GenPowerCone<T>" name=get_Hs rules=R1,R2
